@@ -242,6 +242,38 @@ Definition jti_then_client (m : meth) (j : jwt) (jdb : jti_db) : vres * jti_db :
       end
   end.
 
+(* the HS branch of JWSAuthnMethod._verify:
+     keys = _keyjar.get("sig", "oct", ca_jwt["iss"], kid)
+     _secret = _context.cdb[ca_jwt["iss"]].get("client_secret")
+     if _secret and keys[0].key != as_bytes(_secret): raise AttributeError(...)
+   false = one of KeyError (cdb[iss]), IndexError (keys[0]), AttributeError: all mean "next method" *)
+Definition hs_key_is_secret (cx : actx) (i : pystr) : bool :=
+  match assoc i (cx_cdb cx) with
+  | None => false                               (* KeyError: cdb[iss] *)
+  | Some c =>
+      match c_secret c with
+      | None | Some [] => true                  (* no secret: nothing is compared *)
+      | Some s =>
+          match assoc i (kj_iss (cx_kj cx)) with
+          | None => false
+          | Some ks => match filter (vkey_is AlgHS) ks with
+                       | VOct k0 :: _ => str_eqb k0 s      (* keys[0].key == secret *)
+                       | _ => false                        (* IndexError *)
+                       end
+          end
+      end
+  end.
+
+(* key_type = "client_secret" (hs = true) / "private_key" (hs = false) against the alg header *)
+Definition key_type_ok (cx : actx) (hs : bool) (j : jwt) : bool :=
+  match j_alg j with
+  | AlgHS => hs && match j_iss j with
+                   | None => false              (* KeyError 'iss' *)
+                   | Some i => hs_key_is_secret cx i
+                   end
+  | _ => negb hs                                (* AttributeError("Wrong key type") *)
+  end.
+
 (* JWSAuthnMethod._verify with key_type = "client_secret" (hs = true) or "private_key" (hs = false) *)
 Definition jws_verify (cx : actx) (ep : endpoint) (now : Z) (m : meth) (hs : bool) (t : token) (jdb : jti_db)
   : vres * jti_db :=
@@ -252,32 +284,7 @@ Definition jws_verify (cx : actx) (ep : endpoint) (now : Z) (m : meth) (hs : boo
       match t with
       | NotJwt => (VSkip, jdb)
       | Jwt j =>
-          let key_type_ok :=
-            match j_alg j with
-            | AlgHS =>
-                if negb hs then false                                  (* AttributeError("Wrong key type") *)
-                else match j_iss j with
-                     | None => false                                   (* KeyError 'iss' *)
-                     | Some i =>
-                         match assoc i (cx_cdb cx) with
-                         | None => false                               (* KeyError: cdb[iss] *)
-                         | Some c =>
-                             match c_secret c with
-                             | None | Some [] => true                  (* no secret: nothing compared *)
-                             | Some s =>
-                                 match assoc i (kj_iss (cx_kj cx)) with
-                                 | None => false
-                                 | Some ks => match filter (vkey_is AlgHS) ks with
-                                              | VOct k0 :: _ => str_eqb k0 s    (* keys[0].key == secret *)
-                                              | _ => false                      (* IndexError *)
-                                              end
-                                 end
-                             end
-                         end
-                     end
-            | _ => negb hs                                             (* AttributeError("Wrong key type") *)
-            end in
-          if negb key_type_ok then (VSkip, jdb)
+          if negb (key_type_ok cx hs j) then (VSkip, jdb)
           else match j_aud j with
                | None => (VSkip, jdb)                                  (* KeyError 'aud' *)
                | Some aud =>
